@@ -438,7 +438,13 @@ def _env():
         def __getattr__(self, name):
             return getattr(client, name)
 
-    lits = _facts()["lits"]
+    try:
+        lits = _facts()["lits"]
+    except Exception:       # the extractor does not recognise the source (reported by step A): today's texts
+        lits = {b"Error 405: Method Not Allowed": "notAllowed", b"200 OK": "optionsOk", b"Error 404: Not Found": "notFound",
+                b"403 Forbidden - incorrect gateway api key": "badKey",
+                b"403 Forbidden - access to the requested object has been denied": "denied",
+                b"Cannot connect to the Pyro name server. Is it running? Refresh page to retry.": "nsDown"}
     _ENV = dict(gw=gw, client=client, core=core, config=config, callcontext=callcontext, shim=ClientShim(),
                 get_nameserver=get_nameserver, lits=lits,
                 proxy_names=sorted(set(dir(client.Proxy)) | set(vars(client.Proxy("PYRO:x@h:1")))))
@@ -778,8 +784,9 @@ def check_property(ctx, case, rep, events):
     status = rep["status"]
     if not authorised:
         if events:
-            fail("traffic-unauthorised", "Pyro traffic %r for a request that %s" % (
-                events[0], "does not present the gateway key" if not key_ok else "names no object matching the expose pattern"))
+            why = ("is not under /pyro/" if not under else "is not a GET or POST" if case["method"] not in ("GET", "POST") else
+                   "does not present the gateway key" if not key_ok else "names no object matching the expose pattern")
+            fail("traffic-unauthorised", "Pyro traffic %r for a request that %s" % (events[0], why))
         if under and rest and not (status in (403, 404, 405) or (case["method"] == "OPTIONS" and status == 200)):
             fail("unauthorised-not-refused", "status %d for an unauthorised call request" % status)
         return
@@ -918,7 +925,7 @@ def oracle(ctx):
     # step D runs inside _run on the same cases (check_property looks at the real outcome only);
     # in search mode it runs again on fresh cases with a larger budget
     if ctx.search_mode:
-        _run(ctx, "search", ctx.n(30000, 250000), False)
+        _run(ctx, "search", ctx.n(30000, 100000), False)
 
 
 def replay(ctx, case):
